@@ -53,7 +53,7 @@ def g_history(draw):
             lo = gen.choice(draw, [0, -6, -12])  # possibly far below the floors
             op["var"] = scales[None, :] ** 2 * np.exp(r.uniform(-2, 2, (C, F))) * 10.0 ** r.integers(lo, 1, (C, F))
         elif name == "set_floors":
-            kind = gen.choice(draw, ["scalar", "vector", "matrix", "zero", "eps"])
+            kind = gen.choice(draw, ["scalar", "vector", "matrix", "zero", "eps", "column", "row"])
             e = gen.integer(draw, -8, 1)
             if kind == "scalar":
                 op["floor"] = float(10.0**e * scales.min() ** 2)
@@ -61,6 +61,10 @@ def g_history(draw):
                 op["floor"] = 10.0**e * scales**2 * np.exp(r.uniform(-1, 1, F))
             elif kind == "matrix":
                 op["floor"] = 10.0**e * (scales**2)[None, :] * np.exp(r.uniform(-1, 1, (C, F)))
+            elif kind == "column":  # one floor per component, as a (C, 1) column
+                op["floor"] = 10.0**e * scales.min() ** 2 * np.exp(r.uniform(-1, 1, (C, 1)))
+            elif kind == "row":  # one floor per feature, as a (1, F) row
+                op["floor"] = 10.0**e * (scales**2)[None, :] * np.exp(r.uniform(-1, 1, (1, F)))
             elif kind == "zero":
                 op["floor"] = 0.0
             else:
